@@ -393,3 +393,53 @@ VARIANTS += [
     dict(prop="C17", name="error-discards-held-records", expect="ITEMS|held-records-then-Err",
          edits=[dict(file=SIF, find="                            if items.is_empty() {\n                                return Poll::Ready(Some(Err(err)));\n                            }\n                            *this.pending_err = Some(err);\n                            return Poll::Ready(Some(Ok(items)));", replace="                            return Poll::Ready(Some(Err(err)));")]),
 ]
+
+VPF = "ipa-core/src/protocol/ipa_prf/validation_protocol/validation.rs"
+_PD_OLD = "        Ok(buf\n            .chunks(<<Fp61BitPrime as Serializable>::Size as Unsigned>::to_usize())\n            .map(|buf| Fp61BitPrime::deserialize(buf.try_into().unwrap()))\n            .collect::<Result<Vec<_>, _>>()?\n            .try_into()\n            .unwrap())\n    }\n}\n\nimpl MpcMessage for ProofDiff {}"
+def _pd_new(take):
+    return ("        let sz = <<Fp61BitPrime as Serializable>::Size as Unsigned>::to_usize();\n        let mut diff = [Fp61BitPrime::ZERO; MAX_PROOF_RECURSION + 1];\n        for (i, v) in diff.iter_mut().enumerate()%s {\n            *v = Fp61BitPrime::deserialize(buf[sz * i..sz * (i + 1)].try_into().unwrap())?;\n        }\n        Ok(diff)\n    }\n}\n\nimpl MpcMessage for ProofDiff {}" % take)
+VARIANTS += [
+    dict(prop="C09", name="proofdiff-in-place-take-n", expect="COVER|[Fp61BitPrime; MAX_PROOF_RECURSION + 1]::deserialize:take",
+         edits=[dict(file=VPF, find=_PD_OLD, replace=_pd_new(".take(MAX_PROOF_RECURSION)"))]),
+    dict(prop="C09", name="proofdiff-in-place-full", benign=True,
+         edits=[dict(file=VPF, find=_PD_OLD, replace=_pd_new(""))]),
+    dict(prop="C09", name="proofdiff-in-place-take-n-plus-1", benign=True,
+         edits=[dict(file=VPF, find=_PD_OLD, replace=_pd_new(".take(MAX_PROOF_RECURSION + 1)"))]),
+    dict(prop="C09", name="stdarray-loop-short", expect="COVER|StdArray<V, 16>::deserialize:loop-count",
+         edits=[dict(file="ipa-core/src/secret_sharing/vector/array.rs", find="                for i in 0..$width {\n                    res[i] = V::deserialize(", replace="                for i in 0..$width - 1 {\n                    res[i] = V::deserialize(")]),
+    dict(prop="C09", name="seed-pair-gap", expect="COVER|(Seed, Seed)::deserialize:ranges-tile-buffer",
+         edits=[dict(file="ipa-core/src/protocol/prss/seed.rs", find="        let left = Seed::deserialize(GenericArray::from_slice(\n            &buf[..<Seed as Serializable>::Size::USIZE],", replace="        let left = Seed::deserialize(GenericArray::from_slice(\n            &buf[<Seed as Serializable>::Size::USIZE..],")]),
+]
+
+DSF = "ipa-core/src/protocol/ipa_prf/oprf_padding/distributions.rs"
+VARIANTS += [
+    dict(prop="C12", name="truncated-folds-negative", expect="SHAPE-sampler|TruncatedDoubleGeometric::sample:returns-the-draw",
+         edits=[dict(file=DSF, find="            let s = self.double_geometric.sample(rng);\n            if s >= 0 && s <= (self.shift_doubled).try_into().unwrap() {\n                return s.try_into().unwrap();", replace="            let s = self.double_geometric.sample(rng).unsigned_abs();\n            if s <= self.shift_doubled {\n                return s;")]),
+    dict(prop="C12", name="truncated-clamps", expect="SHAPE-sampler|TruncatedDoubleGeometric::sample",
+         edits=[dict(file=DSF, find="            if s >= 0 && s <= (self.shift_doubled).try_into().unwrap() {\n                return s.try_into().unwrap();\n            }", replace="            if s >= 0 {\n                return u32::try_from(s).unwrap().min(self.shift_doubled);\n            }")]),
+    dict(prop="C12", name="truncated-upper-strict", expect="SHAPE-sampler|TruncatedDoubleGeometric::sample:accept-iff-draw<=2shift",
+         edits=[dict(file=DSF, find="            if s >= 0 && s <= (self.shift_doubled).try_into().unwrap() {", replace="            if s >= 0 && s < (self.shift_doubled).try_into().unwrap() {")]),
+    dict(prop="C12", name="geometric-counts-from-one", expect="SHAPE-sampler|Geometric::sample:counts-failures",
+         edits=[dict(file=DSF, find="        let mut attempts = 0;\n        while !self.bernoulli.sample(rng) {", replace="        let mut attempts = 1;\n        while !self.bernoulli.sample(rng) {")]),
+    dict(prop="C12", name="double-geometric-same-draw", expect="SHAPE-sampler|DoubleGeometric::sample:shift+g1-g2",
+         edits=[dict(file=DSF, find="        let attempts2 = self.geometric.sample(rng);", replace="        let attempts2 = attempts1 / 2;")]),
+    dict(prop="C12", name="double-geometric-prob", expect="SHAPE-sampler|DoubleGeometric::new:p=1-exp(-1/s)",
+         edits=[dict(file=DSF, find="        let success_probability = 1.0 - E.powf(-1.0 / s);", replace="        let success_probability = 1.0 - E.powf(-s);")]),
+    dict(prop="C12", name="truncated-shift-not-doubled", expect="SHAPE-sampler|TruncatedDoubleGeometric::new:2*shift",
+         edits=[dict(file=DSF, find="            shift_doubled: 2 * shift,", replace="            shift_doubled: 2 * shift + 1,")]),
+    dict(prop="C12", name="truncated-i64-compare", benign=True,
+         edits=[dict(file=DSF, find="            if s >= 0 && s <= (self.shift_doubled).try_into().unwrap() {", replace="            if s >= 0 && s <= i32::try_from(self.shift_doubled).unwrap() {")]),
+]
+
+VARIANTS += [
+    dict(prop="C03", name="store-resize-unguarded", expect="STORE-grow|insert_segment_small:resize_with",
+         edits=[dict(file=DZV, find="        if self.vec.len() <= block_id {\n            self.vec\n                .resize_with(block_id + 1, MultiplicationInputsBlock::default);\n        }", replace="        self.vec\n            .resize_with(block_id + 1, MultiplicationInputsBlock::default);")]),
+    dict(prop="C03", name="store-resize-guard-lt", benign=True,
+         edits=[dict(file=DZV, find="        if self.vec.len() <= block_id {\n            self.vec\n                .resize_with(block_id + 1, MultiplicationInputsBlock::default);", replace="        if self.vec.len() < block_id + 1 {\n            self.vec\n                .resize_with(block_id + 1, MultiplicationInputsBlock::default);")]),
+    dict(prop="C02", name="store-truncated-on-large-insert", expect="STORE-grow|insert_segment_large:truncate",
+         edits=[dict(file=DZV, find="        if self.vec.len() < block_id {\n            self.vec\n                .resize_with(block_id, MultiplicationInputsBlock::default);\n        }", replace="        if self.vec.len() < block_id {\n            self.vec\n                .resize_with(block_id, MultiplicationInputsBlock::default);\n        } else {\n            self.vec.truncate(block_id + length_in_blocks);\n        }")]),
+    dict(prop="C06", name="cross-shard-prss-forwards-to-prss", expect="WHO-forward|<protocol::context::dzkp_malicious::DZKPUpgraded",
+         edits=[dict(file="ipa-core/src/protocol/context/dzkp_malicious.rs", find="        self.base_ctx.cross_shard_prss()", replace="        self.base_ctx.prss()")]),
+    dict(prop="C06", name="base-cross-shard-opens-per-shard-endpoint", expect="WHO-forward|Base::cross_shard_prss:endpoint",
+         edits=[dict(file="ipa-core/src/protocol/context/mod.rs", find="self.sharding.cross_shard_prss().indexed(self.gate())", replace="self.inner.prss.indexed(self.gate())")]),
+]
